@@ -1,5 +1,6 @@
 import TongoProofs.Lemmas.WalletMsg
 import TongoProofs.Lemmas.HighloadDict
+import TongoProofs.Lemmas.WalletExt
 /-! Property C14 — wallet-built messages carry the requested transfers under a valid signature.
 
 Model: `TongoModel/WalletMsg.lean` (bodies per version, signature placement, external-message envelope, verifiers,
@@ -277,6 +278,109 @@ theorem verify_own_key_highload (sign : List UInt8 → List UInt8 → List UInt8
     subst hmsg hbody hdg
     exact verifySignature_attached H sign verify pub hsc hsl sk hpk .highloadV2R2 (by decide) layout hty hmask hdc self hh code data
       withInit hdep
+
+/-! ### v5 extended actions -/
+
+/-- the signed cell of a v5r1 message with send actions and a non-empty list of extended actions, written out: the
+first extended action follows the two `Maybe` bits inline, the others hang off it as a chain of references -/
+def v5ExtLayout (ids : BodyIds) (op seqno vu : Nat) (msgs : List RawMsg) (a : ExtAction) (tl : List ExtAction) : Cell :=
+  .ordinary (natToBits 32 op ++ natToBits 32 ids.walletId ++ natToBits 32 vu ++ natToBits 32 seqno ++ [true] ++ [true] ++
+      extActionBits a)
+    ([actionsCell msgs] ++ (if tl = [] then [] else [extChainCell tl]))
+
+/-- `W5ExtendedActions` round trip: what `MarshalTLB` writes at a position of a cell (first action inline, the rest as a
+chain of cells), `UnmarshalTLB` reads back — the same actions in the same order — leaving the reader behind the first
+action. Actions are well-formed: standard addresses (`int8` workchain, 32-byte hash) or `addr_none`. -/
+theorem ext_actions_roundtrip (a : ExtAction) (tl : List ExtAction) (hw : ∀ x ∈ a :: tl, x.WF) (b : CellB)
+    (hb : b.bits.length + 275 ≤ 1023) (hr : b.refs = []) (rest : List Bool) :
+    ∃ b', writeExtActions b (a :: tl) = .ok b' ∧ b'.bits = b.bits ++ extActionBits a ∧
+      readExtActions { bits := b'.bits.drop b.bits.length ++ rest, refs := b'.refs } = .ok (a :: tl, { bits := rest, refs := [] }) := by
+  refine ⟨_, writeExtActions_ok a tl b hb (by simp [hr]), rfl, ?_⟩
+  simp only [hr, List.nil_append, List.drop_left']
+  exact readExtActions_ok a tl hw rest
+
+/-- v5r1 with extended actions: the builder returns `v5ExtLayout`, and decoding the external message around the
+signed body returns the wallet id, seqno, expiry, exactly the requested messages (what `ExtractRawMessages` yields)
+AND exactly the requested extended actions, in order. -/
+theorem decode_build_v5_ext (ids : BodyIds) (hids : ids.WF) (op seqno vu : Nat) (hop : op = opSignedExternal ∨ op = opSignedInternal)
+    (hseq : seqno < 4294967296) (hvu : vu < 4294967296) (msgs : List RawMsg) (hm : ∀ m ∈ msgs, m.mode < 256)
+    (ht : ∀ m ∈ msgs, m.msg.ty ≠ tyLibrary ∧ m.msg.ty ≠ tyPruned) (a : ExtAction) (tl : List ExtAction) (hw : ∀ x ∈ a :: tl, x.WF)
+    (sig : List UInt8) (hs : sig.length = 64) (self : Address) (hh : self.hash.length = 32) (code data : Cell) (withInit : Bool)
+    (hdep : (envelope self (attached .v5r1 sig (v5ExtLayout ids op seqno vu msgs a tl))
+        (if withInit then some (stateInitCell code data) else none)).depthO ≤ maxDepth) :
+    signedCellV5Ext ids op seqno vu msgs (some (a :: tl)) = .ok (v5ExtLayout ids op seqno vu msgs a tl)
+    ∧ decodeMessage .v5r1 (envelope self (attached .v5r1 sig (v5ExtLayout ids op seqno vu msgs a tl))
+        (if withInit then some (stateInitCell code data) else none)) =
+      .ok { ids := { walletId := ids.walletId }, seqno := seqno, validUntil := vu, msgs := msgs, ext := a :: tl } := by
+  obtain ⟨_, h2, _, _⟩ := hids
+  have hl : (bytesToBits sig).length = 512 := by simp [hs]
+  have hop32 : op < 2 ^ 32 := by rcases hop with h | h <;> subst h <;> decide
+  have hopx : op ≠ opExtension := by rcases hop with h | h <;> subst h <;> decide
+  have hops : ¬ (op ≠ opSignedInternal ∧ op ≠ opSignedExternal) := by rcases hop with h | h <;> subst h <;> decide
+  constructor
+  · unfold signedCellV5Ext v5ExtLayout writeExtField
+    simp only [bind, Outcome.bind, pure, w5Actions_ok]
+    rw [CellB.writeUint_ok _ _ _ (by simp [CellB.empty])]; simp only []
+    rw [CellB.writeUint_ok _ _ _ (by simp [CellB.empty])]; simp only []
+    rw [CellB.writeUint_ok _ _ _ (by simp [CellB.empty])]; simp only []
+    rw [CellB.writeUint_ok _ _ _ (by simp [CellB.empty])]; simp only []
+    rw [CellB.write_ok _ _ (by simp [CellB.empty])]; simp only []
+    rw [CellB.addRef_ok _ _ (by simp [CellB.empty])]; simp only []
+    rw [CellB.write_ok _ _ (by simp [CellB.empty])]; simp only []
+    rw [writeExtActions_ok a tl _ (by simp [CellB.empty]) (by simp [CellB.empty])]
+    simp [CellB.toCell, CellB.empty, Cell.ordinary]
+  · have hdec := decodeExtMessage_envelope self hh (attached .v5r1 sig (v5ExtLayout ids op seqno vu msgs a tl))
+      (if withInit then some (stateInitCell code data) else none) (envelope_init_ok code data withInit) hdep
+    unfold decodeMessage
+    rw [hdec]
+    simp only [bind, Outcome.bind, attached_ordinary]
+    unfold decodeBody attached sigFirst v5ExtLayout
+    simp only [Version.family, Bool.false_eq_true, ↓reduceIte, Cell.ordinary, Cell.ty, Cell.bits, Cell.refs, CellR.ofCell, tyLibrary]
+    rw [if_neg (by decide), if_neg (by simp)]
+    simp only [List.append_assoc, bind, Outcome.bind, pure, List.cons_append, List.nil_append]
+    rw [CellR.readUint_append 32 _ _ _ hop32]; simp only []
+    rw [if_neg hopx, if_neg hops]
+    rw [CellR.readUint_append 32 _ _ _ h2]; simp only []
+    rw [CellR.readUint_append 32 _ _ _ hvu]; simp only []
+    rw [CellR.readUint_append 32 _ _ _ hseq]; simp only [CellR.readBit_cons, readActionsRefIf, ↓reduceIte]
+    rw [readActionsRef_ok msgs _ _ hm ht]
+    simp only [CellR.readBit_cons, ↓reduceIte]
+    rw [readExtActions_ok a tl hw (bytesToBits sig)]
+    simp only []
+    rw [CellR.readBits_exact _ _ 512 hl]
+    simp [actionsToMsgs_map]
+
+/-- The `extension_action` form (sent by an extension; no signature): the body marshalled from `wallet.MessageV5`
+decodes to its query id, its send actions and its extended actions — and `ExtractRawMessages` returns NO messages for
+it (`MessageV5.RawMessages()` has no case for `ExtensionAction`; modelled as the code is). -/
+theorem decode_extension_action (q : Nat) (hq : q < 18446744073709551616) (msgs : List RawMsg) (hm : ∀ m ∈ msgs, m.mode < 256)
+    (ht : ∀ m ∈ msgs, m.msg.ty ≠ tyLibrary ∧ m.msg.ty ≠ tyPruned) (a : ExtAction) (tl : List ExtAction) (hw : ∀ x ∈ a :: tl, x.WF) :
+    ∃ body, extensionBody q (some msgs) (some (a :: tl)) = .ok body ∧
+      decodeBody .v5r1 body =
+        .ok { ids := {}, seqno := 0, validUntil := 0, queryId := q, msgs := [], ext := a :: tl, extnActions := msgs } := by
+  refine ⟨.ordinary (natToBits 32 opExtension ++ natToBits 64 q ++ [true] ++ [true] ++ extActionBits a)
+    ([actionsCell msgs] ++ (if tl = [] then [] else [extChainCell tl])), ?_, ?_⟩
+  · unfold extensionBody writeActionsField writeExtField
+    simp only [bind, Outcome.bind, pure, w5Actions_ok]
+    rw [CellB.writeUint_ok _ _ _ (by simp [CellB.empty])]; simp only []
+    rw [CellB.writeUint_ok _ _ _ (by simp [CellB.empty])]; simp only []
+    rw [CellB.write_ok _ _ (by simp [CellB.empty])]; simp only []
+    rw [CellB.addRef_ok _ _ (by simp [CellB.empty])]; simp only []
+    rw [CellB.write_ok _ _ (by simp [CellB.empty])]; simp only []
+    rw [writeExtActions_ok a tl _ (by simp [CellB.empty]) (by simp [CellB.empty])]
+    simp [CellB.toCell, CellB.empty, Cell.ordinary]
+  · unfold decodeBody
+    simp only [Version.family, Cell.ordinary, Cell.ty, Cell.bits, Cell.refs, CellR.ofCell, tyLibrary]
+    rw [if_neg (by decide), if_neg (by simp)]
+    simp only [List.append_assoc, bind, Outcome.bind, pure, List.cons_append, List.nil_append]
+    rw [CellR.readUint_append 32 opExtension _ _ (by decide)]; simp only [↓reduceIte]
+    rw [CellR.readUint_append 64 _ _ _ hq]; simp only [CellR.readBit_cons, readActionsRefIf, ↓reduceIte]
+    rw [readActionsRef_ok msgs _ _ hm ht]
+    simp only [CellR.readBit_cons, readExtField, ↓reduceIte]
+    have := readExtActions_ok a tl hw []
+    rw [List.append_nil] at this
+    rw [this]
+    simp [actionsToMsgs_map]
 
 /-! ### too many messages -/
 
